@@ -407,7 +407,8 @@ def prebuild(ctx):
     text, _ = c14_clients.gen_coq()
     (COQ / "C14" / "GenRangeClients.v").write_text(text)
     ctx.coq_build_cached(["C14/GenRangeClients.v", "C14/RangeClients.v", "C14/RangeRefine.v", "C14/PropsClients.v"], deps=RANGE_PRE, timeout=900)
-    ctx.coq_build_cached(FIX_FILES, deps=_fix_deps(), timeout=900)
+    ctx.coq_build_cached(FIX_FILES[:1], deps=FIX_MODEL_DEPS, timeout=600)
+    ctx.coq_build_cached(FIX_FILES[1:], deps=_fix_deps() + FIX_FILES[:1], timeout=900)
     from vlib import c14_pass, c14a_part
     c14a_part.prebuild(ctx)
     c14_pass.prebuild(ctx)
@@ -720,6 +721,7 @@ def part_memloc(ctx):
 
 # ---------------------------------------------------------------- the analysis result, validated per function
 FIX_FILES = ["C14/RangeFix.v", "C14/RangeFixProofs.v", "C14/PropsFix.v"]
+FIX_MODEL_DEPS = ["C14/RangeBase.v", "C14/GenRange.v", "C14/GenRangeClients.v"]
 
 
 def _fix_deps():
@@ -736,7 +738,9 @@ def part_fixpoint(ctx):
     from vlib import c14_fix, c14_pass_corpus as PC
     from vyper.compiler import compile_code
     from vyper.compiler.settings import OptimizationLevel, Settings
-    b = ctx.coq_build_cached(FIX_FILES, deps=_fix_deps(), timeout=900)
+    # the validator itself (definitions only) does not depend on any proof file
+    ctx.coq_build_cached(FIX_FILES[:1], deps=FIX_MODEL_DEPS, timeout=600)
+    b = ctx.coq_build_cached(FIX_FILES[1:], deps=_fix_deps() + FIX_FILES[:1], timeout=900)
     rnd = ctx.rng("fixpoint")
     progs = PC.select(ctx.tier, rnd)
     levels = [OptimizationLevel.GAS] if ctx.tier == "quick" else [OptimizationLevel.GAS, OptimizationLevel.CODESIZE, OptimizationLevel.O3]
